@@ -64,6 +64,10 @@ BUILT = {
     technique="deterministic simulation with fault injection at process level: fd 1 starts failing with EPIPE/ENOSPC/EIO after k accepted bytes, k enumerated densely around 0 and the buffer/pipe size boundaries for each drawn workload",
     text="For each sampled workload the point at which the consumer goes away is enumerated (0..64, +-2 around 1 KiB/4 KiB/8 KiB/16 KiB/64 KiB, geometric beyond); EPIPE must end in death by SIGPIPE with empty stderr and exactly the first k expected bytes on stdout, other errnos in exit 1 with an 'xt error' message.",
     note="Trusted: the interposer's errno equals what the kernel returns on a closed pipe/full device; fidelity runs with a real closing pipe and /dev/full bound that trust."),
+  "C17": dict(level="exploration", ref="§7 C17",
+    technique="deterministic simulation with fault injection (short reads, producer error at every offset, over-reporting producer, early drop after every event) executed three times: ordinary build with a per-run leak oracle, AddressSanitizer build, Miri",
+    text="Seeded YAML-path scenarios put the unsafe parser binding and the decoders through the error paths, contract violations and early drops that the test suite never takes; the ordinary pass adds a counting-allocator leak oracle and crash isolation, the second pass runs the same indices under AddressSanitizer, the third runs the small ones under Miri (Stacked Borrows, uninitialised memory, leaks).",
+    note="Miri and ASan only vouch for the executions they are given; coverage of those executions is sampled. unsafe-libyaml is pure Rust, so Miri sees through it."),
 }
 
 NOT_YET = "check not built yet (work in progress; see DESIGN.md §7 for the planned simulation)"
